@@ -68,6 +68,15 @@ theorem evalPt_mkXor (σ) (args : List (Bool × P)) (oid cls) :
   · simp only [List.map_cons, List.map_nil, sumPt, h1, h2, List.length_cons, List.length_nil]
     split <;> split <;> omega
 
+theorem evalPt_setCond (σ) (p : P) (cid) : evalPt σ (setCond p cid) = evalPt σ p := by
+  cases p <;> simp [setCond, evalPt]
+
+theorem good_setCond (σ) (p : P) (cid) (h : Good σ p) : Good σ (setCond p cid) := by
+  cases p <;> simpa [setCond, Good, SignOk, InB] using h
+
+theorem setCond_isLeaf (p : P) (cid) : (setCond p cid).isLeaf = p.isLeaf := by
+  cases p <;> simp [setCond, isLeaf]
+
 /-- `XNor`: true iff the number of true arguments is not one -/
 theorem evalPt_mkXNor (σ) (args : List (Bool × P)) (oid) (hg : GoodL σ (args.map (·.2))) :
     evalPt σ (mkXNor args oid) = if sumPt σ (args.map (·.2)) = 1 then 0 else 1 := by
@@ -82,7 +91,7 @@ theorem evalPt_mkXNor (σ) (args : List (Bool × P)) (oid) (hg : GoodL σ (args.
   have h2 := evalPt_mkAtMost σ 1 (orderArgs args) none
   rw [sum_orderArgs] at h1 h2
   simp only [sgnOf, Option.getD_none] at h1
-  rw [evalPt_mkAny]
+  rw [evalPt_setCond, evalPt_mkAny]
   simp only [List.map_cons, List.map_nil, sumPt, n1, n2, h1, h2]
   split <;> split <;> split <;> split <;> omega
 
@@ -105,9 +114,6 @@ theorem evalPt_mkNot (σ) (isAtom : Bool) (a : Bool × P) (hg : Good σ a.2) (hl
   | false =>
       simp only [Bool.false_eq_true, if_false]
       exact C05.negate_compl σ _ hg.1 hg.2 (hl rfl)
-
-theorem evalPt_setCond (σ) (p : P) (cid) : evalPt σ (setCond p cid) = evalPt σ p := by
-  cases p <;> simp [setCond, evalPt]
 
 /-- `Imply`: material implication -/
 theorem evalPt_mkImply (σ) (cAtom : Bool) (c d : Bool × P) (oid)
@@ -237,9 +243,10 @@ theorem build_inv (σ : String → Int) : ∀ a, Ok σ a → Inv σ a
       have hl : OkL σ as := by simpa [Ok] using h
       have ⟨i1, i2, _, _⟩ := buildL_inv σ as hl
       have hgo := (goodL_orderArgs σ (Ast.buildL as)).2 i2
-      refine ⟨?_, ?_, by simp only [truth]; exact ite10 _, fun _ => by simp [Ast.build, mkXNor, mkAny, mkAtLeast_isLeaf]⟩
+      refine ⟨?_, ?_, by simp only [truth]; exact ite10 _, fun _ => by simp [Ast.build, mkXNor, mkAny, mkAtLeast_isLeaf, setCond_isLeaf]⟩
       · simp only [Ast.build, truth, evalPt_mkXNor σ _ oid i2, i1]
       · simp only [Ast.build, mkXNor, mkAny]
+        apply good_setCond
         apply good_mkAtLeast σ _ _ _ _ _ (Or.inl rfl)
         apply (goodL_orderArgs σ _).2
         apply (GoodL_iff σ _).2
